@@ -1,5 +1,7 @@
 package apph
 
+import "fmt"
+
 // Corpus: hand-written histories that once separated the model from the code or exhibit a known
 // finding.  They run before the generated histories in every application-level check.
 
@@ -84,4 +86,71 @@ func CorpusHistories(scratch string, names map[string]bool) ([]*History, []strin
 		used = append(used, c.name)
 	}
 	return out, used, nil
+}
+
+func (s *Sim) TxProposal(from Key, start, period, apply int64, opts ...[]byte) *TxSpec {
+	t := s.baseTx(4, from, make([]byte, 20))
+	p := &PropSpec{Message: "script", Start: start, Period: period, Apply: apply, OptType: 257}
+	for _, o := range opts {
+		p.Options = append(p.Options, OptSpec{Raw: o})
+	}
+	t.Prop = p
+	t.Note = "script-proposal"
+	return t
+}
+func (s *Sim) TxVote(from Key, hash []byte, choice int32) *TxSpec {
+	t := s.baseTx(5, from, make([]byte, 20))
+	t.VoteHash, t.VoteChoice = hash, choice
+	t.Note = "script-vote"
+	return t
+}
+
+// GovPanicScenarios: parameter documents that pass proposal validation, win the vote, and then stop
+// block processing when they are applied or used (C09).  Each run is expected to END with a panic if
+// the defect is present; the returned map gives, per scenario, where the node panicked ("" = it did not).
+func GovPanicScenarios(scratch string) (map[string]string, error) {
+	docs := map[string][]byte{
+		"gov-option-unparsable-after-rewrite":  []byte(`{"gasPrice":""}`),
+		"gov-negative-max-validator-count":     []byte(`{"maxValidatorCnt":"-5"}`),
+		"gov-zero-max-validator-count-limiter": []byte(`{"maxValidatorCnt":"-1","maxUpdatableStakeRatio":"1"}`),
+	}
+	out := map[string]string{}
+	i := 0
+	for name, doc := range docs {
+		i++
+		doc := doc
+		var propHash []byte
+		h, err := Scripted(name, int64(910000+i), scratch, 1, 2, func(g *Genesis) {
+			easyParams(g)
+			g.Params.MinVotingPeriodBlocks, g.Params.MaxVotingPeriodBlocks, g.Params.LazyApplyingBlocks = 1, 3, 1
+		}, 11, func(s *Sim, h int64) []*TxSpec {
+			switch h {
+			case 3: // the validator set is known to the node from the end of block 2 on
+				return []*TxSpec{s.TxProposal(s.Val(0), 4, 1, 6, doc)}
+			case 4:
+				if len(s.H.WatchH) > 0 {
+					propHash = s.H.WatchH[len(s.H.WatchH)-1]
+					return []*TxSpec{s.TxVote(s.Val(0), propHash, 0)}
+				}
+			case 9:
+				return []*TxSpec{s.TxStake(s.User(0), s.Val(0).Addr, 1)}
+			}
+			return nil
+		})
+		if err != nil {
+			return nil, err
+		}
+		trace := ""
+		for _, o := range h.Obs {
+			for _, d := range o.Delivers {
+				trace += fmt.Sprintf("[code %d] ", d.Code)
+			}
+			for _, e := range o.EndEvts {
+				trace += e + " "
+			}
+		}
+		out[name] = h.Err
+		out[name+":trace"] = trace
+	}
+	return out, nil
 }
